@@ -109,6 +109,11 @@ class C04(Check):
                 if edge and not name.startswith("v1-"):
                     # the same cell met by a manager that has served another command before
                     cs.append({"name": name, "idx": idx, "history": True})
+                if edge and not name.startswith("v1-") and idx in (0, nom["n"] - 1):
+                    # the other dongle classes (SGX, TCP): what they override must keep the mapping
+                    for plat in ("sgx", "tcp"):
+                        cs.append({"name": name, "idx": idx, "other": True, "small": not self.thorough,
+                                   "platform": plat})
                 if edge:
                     # the same with the managers' -D/--iodebug option on the dongle (what is logged
                     # on the error paths)
@@ -134,15 +139,22 @@ class C04(Check):
                     return ("sw", fault[1])
                 return None
             w.inject = inject
-        proto = harness.make_protocol(w, v1=v1, debug=getattr(self, "debug_dongle", False))
+        proto = harness.make_protocol(w, v1=v1, debug=getattr(self, "debug_dongle", False),
+                                      platform=getattr(self, "platform", "ledger"))
         import json
         o = harness.handle_line(proto, json.dumps(req).encode())
         return w, o
 
     def run_case(self, case, stats):
         self.debug_dongle = bool(case.get("iodebug"))
+        self.platform = case.get("platform", "ledger")
         try:
             vs = self._run_case(case, stats)
+            if self.platform != "ledger":
+                for v in vs:
+                    if isinstance(v.d.get("case"), dict):
+                        v.d["case"]["platform"] = self.platform
+                        v.d["key"] = v.d["key"] + ":" + self.platform
             if self.debug_dongle:
                 for v in vs:
                     if isinstance(v.d.get("case"), dict):
@@ -151,6 +163,7 @@ class C04(Check):
             return vs
         finally:
             self.debug_dongle = False
+            self.platform = "ledger"
 
     def history(self, case, stats):
         """state kept by the manager between commands: after each other command (served on the same
